@@ -6,6 +6,7 @@
 //!                                             is refused (already bound), so it reports too-many-retries
 //!   rec takeover <max_attempts>               the same, but the first replier leaves while the second still has
 //!                                             attempts left: the second one binds and serves
+//!   rec lonereplier <outages> <max_attempts>  a replier with no requestor on its topic is cut; a requestor arrives afterwards
 //!   rec siblings <outages> <max_attempts>     two subscribers of one client (one shared connection) lose it together
 //!   rec quiet <outages> <max_attempts>        a subscriber on a topic nobody publishes to during the outages
 //!                                             (nothing resets anything in between); one message at the end
@@ -162,6 +163,40 @@ async fn case(addr: SocketAddr, certs: &Certs, kind: &str, outages: usize, attem
                 publ = flaky.publisher(&topic).with_encoder(StringCodec).open().await?;
                 publ.send("again".into()).await?;
             }
+        }
+        "lonereplier" => {
+            // a replier that is alone on its topic when its connection is cut (no requestor is registered, none arrives during
+            // the outage): it re-registers all the same, and the requestor that turns up later is served
+            let topic = format!("/verif/recl{n}");
+            let f2 = flaky.clone();
+            let t2 = topic.clone();
+            let rep = tokio::spawn(async move {
+                let mut replier = f2.replier(&t2).with_request_decoder(StringCodec).with_reply_encoder(StringCodec)
+                    .with_handler(|req: String| async move { Ok::<_, anyhow::Error>(format!("r:{req}")) }).open().await?;
+                replier.listen().await
+            });
+            tokio::time::sleep(Duration::from_millis(120)).await;
+            for k in 0..outages {
+                flaky.verif_close_connection().await;
+                // long enough for the whole retry budget to be used up if every registration were refused
+                tokio::time::sleep(Duration::from_millis(150 + 40 * attempts as u64)).await;
+                let mut res = "lost".to_string();
+                if rep.is_finished() { res = "replier-gave-up".into(); }
+                else {
+                    let mut rq = stable.requestor(&topic).with_request_encoder(StringCodec).with_reply_decoder(StringCodec).with_request_timeout(400u64)?.open().await?;
+                    for j in 0..6 {
+                        match rq.request(format!("q{k}.{j}")).await { Ok(s) if s == format!("r:q{k}.{j}") => { res = "ok".into(); break; } _ => {} }
+                        if rep.is_finished() { res = "replier-gave-up".into(); break; }
+                    }
+                    drop(rq);
+                    tokio::time::sleep(Duration::from_millis(120)).await;
+                }
+                out.push(res);
+                if rep.is_finished() { break; }
+            }
+            if rep.is_finished() {
+                if let Ok(Err(e)) = rep.await { out.push(format!("listen:{}", errname(&e))); }
+            } else { rep.abort(); }
         }
         "replier" => {
             let topic = format!("/verif/recr{n}");
@@ -408,6 +443,7 @@ pub fn run(cfg: &Cfg) {
         cases.push("rec takeover 40".into());
         cases.push("rec subone 3 2".into());
         cases.push("rec siblings 2 3".into());
+        cases.push("rec lonereplier 2 3".into());
         cases.push("rec closing 2 3".into());
         cases.push("rec quiet 3 1".into());
         cases.push("rec quiet 5 2".into());
